@@ -174,11 +174,34 @@ fn run_op(line: &str) -> Option<(String, String)> {
             let parts: Vec<&str> = line.split(" | ").collect();
             let head: Vec<&str> = parts[0].split(' ').filter(|s| !s.is_empty()).collect();
             match head.as_slice() {
-                ["cli", kind, slave] => cli_op(kind, slave, &parts[1..]),
+                ["cli", kind, slave, opts @ ..] => {
+                    set_errno(field("errno", opts).parse().unwrap_or(0));
+                    let r = cli_op(kind, slave, &parts[1..]);
+                    // keep the head options in the rewritten line
+                    r.map(|(l, res)| {
+                        if opts.is_empty() {
+                            (l, res)
+                        } else {
+                            let head = format!("cli {kind} {slave}");
+                            (l.replacen(&head, &format!("{head} {}", opts.join(" ")), 1), res)
+                        }
+                    })
+                }
                 ["srv", kind, fields @ ..] => srv_op(kind, fields),
                 _ => None,
             }
         }
+    }
+}
+
+extern "C" {
+    fn __errno_location() -> *mut i32;
+}
+
+/// ambient OS error state, as left behind by an unrelated failing system call
+pub fn set_errno(v: i32) {
+    unsafe {
+        *__errno_location() = v;
     }
 }
 
@@ -457,7 +480,7 @@ fn cli_op(kind: &str, slave: &str, ops: &[&str]) -> Option<(String, String)> {
                 let d = run_typed(&io, &mut ctx, &top);
                 format!("{} {}", driven_tok(d), effects_tok(&io.take_log()))
             }
-            ["slave", id] => {
+            ["slave", id, ..] => {
                 ctx.set_slave(Slave(p_u8(id)?));
                 "ok".to_string()
             }
